@@ -110,7 +110,7 @@ def outcomeJson (o : Outcome) : Json :=
   .obj [(S "status", .str o.status), (S "output", optJ o.output),
         (S "error", match o.error with | some e => .str e | none => .null),
         (S "cause", optJ o.cause), (S "failState", .bool o.failState),
-        (S "trace", .arr (o.trace.map .str)), (S "multiFail", .bool o.multiFail),
+        (S "trace", .arr (o.trace.map .str)), (S "multiFail", .bool o.multiFail), (S "tieFail", .bool o.tieFail),
         (S "log", .arr (o.log.filterMap evShort)), (S "requests", .num o.requests), (S "fanFail", .bool o.fanFail),
         (S "history", .arr (List.zipWith timedJson o.history o.times)), (S "endTime", ratJson o.endTime),
         (S "notifications", .arr (o.notifications.map (fun n => .arr [.str n.1, n.2])))]
